@@ -850,4 +850,9 @@ class SecureHomeKitConnection(HomeKitConnection):
         logger.debug("Secure connection to %s:%s established", self.connected_host, self.port)
 
         if self.owner:
-            await self.owner.connection_made(True)
+            try:
+                await self.owner.connection_made(True)
+            except Exception:
+                # We will be retried, so do not leave this connection behind
+                self._drop_transport()
+                raise
